@@ -181,6 +181,10 @@ struct Scenario {
     /// Refused submissions on the same connection before the chain is built (1 = a refused
     /// `enqueue_call`, 2 = a chain whose first call is refused); they leave nothing behind.
     pre_refused: Vec<u8>,
+    /// Drop the reply stream after this many items (chains only): the replies it has not taken
+    /// stay on the connection and must come out of ordinary receives, in order, followed by the
+    /// frames of the later exchange.
+    abandon_after: Option<usize>,
 }
 
 fn tag(t: &mut Tape, style: usize, salt: usize) -> String {
@@ -276,7 +280,8 @@ fn gen_scenario(t: &mut Tape, borrowed: bool) -> Scenario {
             pre_refused.push(1 + t.draw(2) as u8);
         }
     }
-    Scenario { calls, owed, foreign, via_proxy, pre_refused }
+    let abandon_after = if !via_proxy && !borrowed && t.draw(5) == 4 { Some(t.draw(owed.len() + 1)) } else { None };
+    Scenario { calls, owed, foreign, via_proxy, pre_refused, abandon_after }
 }
 
 fn clip(s: &str) -> String {
@@ -363,7 +368,7 @@ impl Prop for ChainProp {
                 w.cfg.bias = 3;
                 w.cfg.chunk = [Chunk::Whole, Chunk::Frame, Chunk::Byte][delivery].clone();
                 let foreign = if borrowed { vec![] } else { vec![Owed { service_error: false, error: false, unit_error: false, num: 900, text: "later".into(), continues: None, wire: 0 }] };
-                (Scenario { calls, owed, foreign, via_proxy: false, pre_refused: vec![] }, format!("systematic delivery={delivery}"))
+                (Scenario { calls, owed, foreign, via_proxy: false, pre_refused: vec![], abandon_after: None }, format!("systematic delivery={delivery}"))
             } else {
                 w.cfg = Cfg::swarm(&mut w.tape);
                 let sc = gen_scenario(&mut w.tape, borrowed);
@@ -409,6 +414,8 @@ impl Prop for ChainProp {
             foreign_got: Vec<String>,
             finished: bool,
             fail: Option<(String, String)>,
+            /// replies the abandoned stream left behind, as ordinary receives returned them
+            leftover_got: Vec<String>,
         }
         let prog: Rc<RefCell<Progress>> = Rc::new(RefCell::new(Progress::default()));
 
@@ -466,6 +473,11 @@ impl Prop for ChainProp {
                             pin_mut!(stream);
                             prog2.borrow_mut().sent = true;
                             loop {
+                                if sc2.abandon_after == Some(prog2.borrow().yielded.len()) {
+                                    // the caller loses interest: the stream is dropped between two items
+                                    world2.borrow_mut().stat("api.reply_stream_dropped_before_its_end");
+                                    break;
+                                }
                                 let item = stream.next().await;
                                 match item {
                                     None => {
@@ -571,6 +583,14 @@ impl Prop for ChainProp {
                         }
                     }
                 }
+                // what an abandoned stream left behind comes out of ordinary receives
+                if let Some(j) = sc2.abandon_after {
+                    for _ in j..sc2.owed.len() {
+                        let r = conn.receive_reply::<RepIn<'_>, ErrIn<'_>>().await;
+                        let s = render_item(&r);
+                        prog2.borrow_mut().leftover_got.push(s);
+                    }
+                }
                 // frames of a later exchange must still be there for an ordinary receive
                 for _ in 0..sc2.foreign.len() {
                     let r = conn.receive_reply::<RepIn<'_>, ErrIn<'_>>().await;
@@ -641,7 +661,14 @@ impl Prop for ChainProp {
                 None => return Err((format!("{id}/consumed-foreign-frame"), format!("stream yielded {} items but only {} replies are owed; extra item {y}", p.yielded.len(), want_items.len()))),
             }
         }
-        if !p.stream_ended {
+        if let Some(j) = sc.abandon_after {
+            if p.yielded.len() != j {
+                return Err((format!("{id}/missing-item"), format!("the stream was to be dropped after {j} items but yielded {}", p.yielded.len())));
+            }
+            if p.leftover_got != want_items[j..] {
+                return Err((format!("{id}/replies-of-abandoned-stream-lost"), format!("the stream was dropped after {j} of {} owed replies; ordinary receives then returned {:?}, expected {:?}", want_items.len(), p.leftover_got.iter().map(|s| clip(s)).collect::<Vec<_>>(), want_items[j..].iter().map(|s| clip(s)).collect::<Vec<_>>())));
+            }
+        } else if !p.stream_ended {
             if p.yielded.len() == want_items.len() {
                 // (5) blocked on nothing
                 return Err((
@@ -651,7 +678,7 @@ impl Prop for ChainProp {
             }
             return Err((format!("{id}/missing-item"), format!("only {} of {} owed replies were yielded and the stream is stuck", p.yielded.len(), want_items.len())));
         }
-        if p.yielded.len() < want_items.len() {
+        if sc.abandon_after.is_none() && p.yielded.len() < want_items.len() {
             return Err((format!("{id}/ended-early"), format!("stream ended after {} of {} owed replies", p.yielded.len(), want_items.len())));
         }
         // (4) foreign frames intact
